@@ -42,6 +42,7 @@ CORNERS = [
     "@print (2 ** 1100) ** (2 ** 1100)", "@print 3 ** (3 ** 7) ** 2", "@print (10 ** 5000) ** 1000 > 0", "@print 2 ** (2 ** 1023)", "@print (-2) ** (2 ** 1100 + 1)",
     "@print {{1}, {1, 2}}.min", "@print {{1}, {1, 2}}.max", "@assert {{1}, {2}}.count == 2", "@print {{1, 2}, {3}}.min", "@print {{'a'}, {'a', 'b'}}.max", "@print {{true}}.min",
     "@print {{1}, {1, 2}} == {{1, 2}, {1}}", "@print {{1}} | {{2}}", "@print {{1}, 2}", "@print {{}}", "@print {{1}, {1.5}}.max", "@print {uint8, int8}.min", "@print {{1}, {2}} < {{1}, {2}, {3}}",
+    "@print uint8[10 ** 5000]", "@print uint8[<=2 ** 63][2]", "@assert uint8[10 ** 5000] == uint8[10 ** 5000]", "uint8[10 ** 5000] vast\nuint8[10 ** 5000] vast", "@print {uint8[10 ** 4400], bool}",
     "uint8 a # \x00 control in a comment", "uint8 é", "uint8 a\x0bb", "\ufeffuint8 a", "uint8 a\x0c", "uint8\u00a0a", "uint8 a\u2028uint8 b",
 ]
 SVC_CORNERS = ["%s svc_field\n@print _offset_", "%s svc_field\n@assert _offset_.count > 0", "uint8 pre_svc\n%s svc_field\nuint8[<=_offset_.max + 1] post_svc", "%s[<=2] svc_var\n@print _offset_",
